@@ -492,12 +492,18 @@ def r7b_membership(ctx, cls, mod):
                 got = e.kind
             except Inconclusive as e:
                 raise AnalysisError("C16 R7: __contains__ outside the decidable fragment: %s" % e)
-            ok = got == behaviour and len(seen) == 1 and seen[0][1] is val and (seen[0][0] is item or item_proxied)
+            # (a proxied item is asked about as the value it stands for: str and bytes containers accept nothing else -
+            #  `P('a') in P('abc')` - and for the others the answer is the same)
+            ok = got == behaviour and len(seen) == 1 and seen[0][1] is val and seen[0][0] is item
             ctx.check(ok, 'R7', 'SandboxResult.__contains__[%s%s]' % (behaviour, ',proxied item' if item_proxied else ''),
-                      mod, fn, "`item in value` %s; `item in proxy` gives %r" % (
-                          'raises TypeError' if behaviour == 'TypeError' else 'is %r' % behaviour, got),
+                      mod, fn, "`item in value` %s; `item in proxy` gives %r%s" % (
+                          'raises TypeError' if behaviour == 'TypeError' else 'is %r' % behaviour, got,
+                          '' if not (seen and item_proxied and seen[0][0] is not item) else
+                          ' - and the value is asked about the proxy object of the item, not about the item'),
                       "[1, 2] in call('seen_points') for a set result returns False; on the real value it raises "
-                      "TypeError (unhashable type)")
+                      "TypeError (unhashable type)" if not item_proxied else
+                      "evaluate('c') in evaluate('s') with c = 'a', s = 'abc' raises TypeError: 'in <string>' requires "
+                      "string as left operand, not SandboxResult; on the real values it is True")
 
 
 ROUNDING = {'__floor__': 'math.floor', '__ceil__': 'math.ceil', '__trunc__': 'math.trunc', '__round__': 'round'}
